@@ -13,6 +13,12 @@ Families:
          (trivial ones included: always / never satisfiable by their bounds); is_solution_valid after every step must be
          "every logical constraint so far holds and every comparison so far holds"
   tmpl   fixed templates that force the `_special_constraints_eq_zero` shortcut and the squared branch
+  mag    extreme-magnitude weights and coefficients: all 16 methods x arities x operand kinds with lam in
+         {1/10^18, 3/2^70, 1/2^60, 1/2^55, 7/10^16, 2^60, 3*2^70, 10^18+1} as exact Fractions / ints and, for the dyadic
+         ones, as Python floats (2.0**-60 ...: IEEE arithmetic is exact there, all coefficients are small-integer multiples
+         of one power of two); {0,1}-valued dict operands spelled with huge / tiny coefficients that cancel on squashing
+         ({(i,): 1+c, (i,i): -c}); histories mixing magnitudes (exact), histories with one common scale (float),
+         and histories with comparison constraints of extreme weight.  The model is over exact rationals: compared exactly.
 
 Every call is run on the real `qubovert.PCBO` and on the Lean model (`op: logic`); compared exactly after every
 step: the terms, the recorded constraints (in order), `num_ancillas`, warnings, `is_solution_valid` on all
@@ -29,6 +35,8 @@ RULE = ("calls add_constraint_[eq_]G(*operands, lam=lam) on a PCBO (fresh, or ca
         "operands are labels (4 label realisations), nested sat expressions (depth<=2), {0,1}-valued plain dicts, "
         "PUBO/PCBO/QUBO objects, repeated operands; arities 0..5; lam in {1,2,1/3} (enum) plus {3,5/2,1/8,0} (random); "
         "histories also re-use operand objects across calls and interleave comparison constraints; "
+        "the same with extreme-magnitude lam (1/10^18 .. 3*2^70, exact Fractions and dyadic floats) and {0,1}-valued dict "
+        "operands whose huge / tiny raw coefficients cancel on squashing (mag); "
         "a case is non-trivial when at least one step succeeds with >=2 operands; distinct = distinct case JSON")
 ASSUMPTIONS = ["operands given as dicts / model objects take values in {0,1} on boolean assignments (the generator "
                "builds them so and the oracle re-checks it)",
@@ -331,6 +339,85 @@ def tmpl_cases():
             out.append({"family": "tmpl", "kind": "tmpl", "labels": Labels.STYLES[i % 4], "seq": seq, "n": case_n(seq)})
     return out
 
+# ------------------------------------------------------------------ extreme magnitudes
+
+MAG_TINY = ["1/1000000000000000000", "3/1180591620717411303424", "1/1152921504606846976", "1/36028797018963968",
+            "7/10000000000000000"]                       # 1/10^18, 3/2^70, 1/2^60, 1/2^55, 7/10^16
+MAG_HUGE = ["1152921504606846976", "3541774862152233910272", "1000000000000000001"]     # 2^60, 3*2^70, 10^18+1
+MAG_LAMS = MAG_TINY + MAG_HUGE
+MAG_SCALES = ["1/1152921504606846976", "1/36028797018963968", "3/1180591620717411303424", "1152921504606846976",
+              "1/1267650600228229401496703205376"]       # common scale of a float history: 2^-60, 2^-55, 3/2^70, 2^60, 2^-100
+
+def is_dyadic(s):
+    """a small odd integer times a power of two: exactly a float, and so is every small-integer multiple of it"""
+    f = Fraction(s)
+    d, m = f.denominator, abs(f.numerator)
+    while m and m % 2 == 0:
+        m //= 2
+    return d & (d - 1) == 0 and m < 2 ** 20
+
+def mag_dicts(pool, c):
+    """{0,1}-valued dicts whose raw coefficients are huge / tiny and cancel when the keys are squashed"""
+    i = pool[0]; j = pool[1 % len(pool)]
+    c = Fraction(c)
+    out = [[[[i], fs(1 + c)], [[i, i], fs(-c)]],
+           [[[i, i], fs(c)], [[i], fs(1 - c)]],
+           [[[], "1"], [[i], fs(c - 1)], [[i, i, i], fs(-c)]]]
+    if i != j:
+        out += [[[[i, j], fs(1 + c)], [[j, i, j], fs(-c)]],
+                [[[i], "1"], [[j], fs(1 + c)], [[j, i], "-1"], [[j, j], fs(-c)]]]
+    return out
+
+def mag_cases(rng, reps_seq):
+    out, idx = [], 0
+    styles = Labels.STYLES
+    for eq in (False, True):
+        for g in GATES:
+            arities = [2 if eq else 1] if g in ("NOT", "BUFFER") else ([3, 4] if eq else [2, 3])
+            for nops in arities:
+                for kind in ("labels", "nested", "dicts", "models", "magdicts"):
+                    for rep in range(2):
+                        lam = MAG_LAMS[idx % len(MAG_LAMS)]
+                        pool = list(range(4))
+                        if kind == "magdicts":
+                            c = rng.choice(["1152921504606846976", "1/1152921504606846976", "1000000000000000000",
+                                            "1/1000000000000000000", "-3541774862152233910272"])
+                            ops = []
+                            for _ in range(nops):
+                                sub = rng.sample(pool, 2)
+                                ops.append({"t": "raw", "p": rng.choice(mag_dicts(sub, c))} if rng.random() < 0.7
+                                           else lbl(rng.choice(pool)))
+                        else:
+                            ops = make_ops(rng, kind, nops, pool)
+                        seq = [{"eq": eq, "g": g, "ops": ops, "lam": lam}]
+                        case = {"family": "mag", "kind": kind, "labels": styles[idx % 4], "seq": seq, "n": case_n(seq)}
+                        # dyadic weights also as floats (exact: every coefficient is a small-integer multiple of lam)
+                        if is_dyadic(lam) and kind != "magdicts" and rep == 1:
+                            case["num"] = "float"
+                        out.append(case)
+                        idx += 1
+    # histories: mixed magnitudes with exact numbers; one common scale with floats; with comparison constraints
+    for r in range(reps_seq):
+        c = rand_case(rng, rng.choice([2, 3]))
+        for st in c["seq"]:
+            st["lam"] = rng.choice(MAG_LAMS + ["1", "2"])
+        out.append(dict(c, family="mag", kind="seq-exact"))
+        c = rand_case(rng, rng.choice([1, 2, 3]))
+        scale = Fraction(rng.choice(MAG_SCALES))
+        for st in c["seq"]:
+            st["lam"] = fs(scale * rng.choice([1, 1, 2, 3]))
+        out.append(dict(c, family="mag", kind="seq-float", num="float"))
+        c = cmp_case(rng)
+        scale = Fraction(rng.choice(MAG_LAMS))
+        for st in c["seq"]:
+            st["lam"] = fs(scale * rng.choice([1, 2]))
+        out.append(dict(c, family="mag", kind="seq-cmp"))
+        c = obj_case(rng)
+        for st in c["seq"]:
+            st["lam"] = rng.choice(MAG_LAMS)
+        out.append(dict(c, family="mag", kind="seq-obj"))
+    return out
+
 # ------------------------------------------------------------------ implementation side
 
 def num_of(s):
@@ -386,7 +473,12 @@ def run_impl(case):
     # exactness: `/ 2` in the library turns ints into floats; with a non-dyadic weight anywhere in the history the
     # comparison steps are driven with Fractions throughout (float + Fraction would round; DESIGN.md §3.2)
     frac = any(Fraction(st["lam"]).denominator & (Fraction(st["lam"]).denominator - 1) for st in case["seq"])
+    # ... and with a weight of extreme magnitude (the library's floats would round next to 10^18 + 1 or 2^-60)
+    frac = frac or any(Fraction(st["lam"]) != 0 and not (Fraction(1, 2 ** 20) <= abs(Fraction(st["lam"])) <= 2 ** 20)
+                       for st in case["seq"])
     cnum = (lambda v: Fraction(v)) if frac else num_of
+    # "float": dyadic weights are passed as Python floats (the generator keeps all weights of such a case on one scale)
+    lnum = (lambda v: float(Fraction(v)) if is_dyadic(v) else num_of(v)) if case.get("num") == "float" else num_of
     outs, funcs, warns = [], [], []
     for st in case["seq"]:
         before_terms, anc_before = dict(H), H.num_ancillas
@@ -396,7 +488,7 @@ def run_impl(case):
         try:
             if st.get("cmp"):
                 d = {L.key(k): cnum(v) for k, v in st["P"]}
-                kw = dict(lam=cnum(st["lam"]))
+                kw = dict(lam=cnum(st["lam"]) if case.get("num") != "float" else lnum(st["lam"]))
                 if st["rel"] != "eq":
                     kw["log_trick"] = st["lt"]
                 if st["lo"] is not None or st["hi"] is not None:
@@ -406,7 +498,7 @@ def run_impl(case):
             else:
                 ops = [build_operand(o, L, objs) for o in st["ops"]]
                 name, args, kw = "add_constraint_" + ("eq_" if st["eq"] else "") + st["g"], tuple(ops), \
-                    dict(lam=num_of(st["lam"]))
+                    dict(lam=lnum(st["lam"]))
             op_snaps = [snapshot(o) for o in ops]
             with warnings.catch_warnings(record=True) as w:
                 warnings.simplefilter("always")
@@ -614,6 +706,7 @@ def check(ctx):
     cases += [rand_case(rng, rng.choice([2, 3, 4])) for _ in range(ctx.scale(300, 4000))]
     cases += [obj_case(rng) for _ in range(ctx.scale(300, 4000))]
     cases += [cmp_case(rng) for _ in range(ctx.scale(300, 4000))]
+    cases += mag_cases(rng, ctx.scale(60, 800))          # generated last: the earlier streams are unchanged
     process(ctx, cases)
     ctx.exhaustive = False
     if ctx.diffs and not ctx.violations:
